@@ -5,7 +5,7 @@ import json
 import re
 import struct
 import numpy as np
-from common import (cz, czl, czll, cbool, copt, NT_COQ, NUMTYPES, ITEMSIZE, EXC_CODE,
+from common import (cz, czl, czl_rle, czll, cbool, copt, NT_COQ, NUMTYPES, ITEMSIZE, EXC_CODE,
                     exc_class)
 
 PRELUDE = ("From Coq Require Import ZArith List Bool.\n"
@@ -174,7 +174,11 @@ def flat_step(st):
 # ---------------------------------------------------------------------------
 
 def rows_term(rows_hex):
-    return czll([hexl(r) for r in rows_hex])
+    rows = [hexl(r) for r in rows_hex]
+    # many identical rows (zero-filled start arrays): repeat row n
+    if len(rows) >= 8 and all(r == rows[0] for r in rows):
+        return f"(repeat {czl_rle(rows[0])} (Z.to_nat {len(rows)}))"
+    return "[" + "; ".join(czl_rle(r) for r in rows) + "]"
 
 
 def chunk_term(img):
@@ -234,7 +238,7 @@ def created_term(case):
 
 def history_term(case, steps):
     ops = "[" + "; ".join(op_term(op, st) for op, st in zip(case['ops'], steps[1:])) + "]"
-    obs = "[" + "; ".join("(%s, %s)" % (cz(rc), czl(fl)) for rc, fl in map(flat_step, steps)) + "]"
+    obs = "[" + "; ".join("(%s, %s)" % (cz(rc), czl_rle(fl)) for rc, fl in map(flat_step, steps)) + "]"
     return f"chk_history {created_term(case)} {ops} {obs}"
 
 
